@@ -68,6 +68,8 @@ func registry() map[string]PropSpec {
 				What: "tuple equality is per dimension: two dimensions, one adjustment, permutation and adjustment values of 1 or `long` symbolic bytes over the characters that occur as constants in step_command_matrix.go (so separators of any internal encoding are in the alphabet): accepted iff equal in every dimension and not skipped"},
 			{Pkg: ".", Name: "c11_skip", Quick: map[string]int{}, Unwind: [2]int{32, 32},
 				What: "every kind of skip value (absent, false, true, a symbolic string of <= 5 printable bytes, int, float, sequence): ShouldSkip is false exactly for absent and false, and validatePermutation accepts the adjustment's tuple (as an adjustment tuple and as a setup combination) exactly when it does not skip"},
+			{Pkg: ".", Name: "c11_frame", Quick: map[string]int{}, Unwind: [2]int{32, 32},
+				What: "validatePermutation is a pure question: two dimensions, symbolic values in any order in a list with spare capacity, optional adjustment with a new value: after any verdict the setup lists, their spare capacity and the adjustments are as before, and a second call gives the same verdict"},
 			{Pkg: ".", Name: "tv_validate_permutation", Quick: map[string]int{}, Unwind: [2]int{64, 64},
 				What: "translator validation: a TestMatrix_ValidatePermutation_Multiple-style table, concrete, through the engine (all map iteration orders)"},
 		},
@@ -123,6 +125,9 @@ func registry() map[string]PropSpec {
 			{Pkg: ".", Name: "c04_error", Quick: map[string]int{}, Unwind: [2]int{48, 48},
 				Models: []string{"github.com/buildkite/interpolate.Interpolate=vpModelInterpolate"},
 				What:   "a failing expansion at any of five positions makes Interpolate return an error"},
+			{Pkg: ".", Name: "c04_transform", Quick: map[string]int{"len": 4}, Thorough: map[string]int{"len": 6}, Unwind: [2]int{48, 64}, Budget: [2]int{120, 1500},
+				Models: []string{"github.com/buildkite/interpolate.Interpolate=vpModelInterpolate"}, Validate: []string{"interpolate"},
+				What:   "envInterpolator.Transform on every string of <= len bytes over {A, x, $, backslash, braces, (} with A bound to a symbolic value: fails exactly when, and returns exactly what, the single-pass expansion does (no pre-filter or fast path treats escapes, trailing $ or braces differently)"},
 		},
 		Outside: []string{
 			"trees deeper than the bound; maps with more than 2 entries; strings longer than 1 symbolic byte plus concrete tags",
@@ -141,6 +146,8 @@ func registry() map[string]PropSpec {
 				What: "newMatrixInterpolator/Transform on lit·token·lit[·token·lit] with dangerous literals, optional inner whitespace, 0-2-byte dimension names and token-shaped values against a hand-written scanner of the property grammar: single pass, error iff unknown dimension"},
 			{Pkg: ".", Name: "c12_scope", Quick: map[string]int{}, Unwind: [2]int{64, 64},
 				What: "InterpolateMatrixPermutation field scope: command, label, plugin sources/configs, env values, unknown fields replaced; env names, key, matrix, signature untouched; empty permutation changes nothing"},
+			{Pkg: ".", Name: "c12_badtoken", Quick: map[string]int{}, Unwind: [2]int{128, 128},
+				What: "a token naming a dimension the permutation lacks, placed at each of 13 in-scope positions (command, label, source of a plugin without config / with a map config / with a scalar config, config key, value, nested value and scalar config, env value, unknown field key, value and nested value) next to valid tokens elsewhere: InterpolateMatrixPermutation returns an error"},
 			{Pkg: ".", Name: "tv_matrix_transform", Quick: map[string]int{}, Unwind: [2]int{128, 128},
 				What: "translator validation: the repository's own TestMatrixInterpolater_* tables, concrete, through the engine's regexp matcher"},
 		},
@@ -288,12 +295,15 @@ func registry() map[string]PropSpec {
 	add(PropSpec{
 		ID: "C13",
 		Harnesses: []HSpec{
-			{Pkg: ".", Name: "c13_steps", Quick: map[string]int{"entries": 2, "depth": 0}, Thorough: map[string]int{"entries": 3, "depth": 0}, Unwind: [2]int{64, 64}, Budget: [2]int{120, 6000},
+			{Pkg: ".", Name: "c13_steps", Quick: map[string]int{"entries": 2, "depth": 0, "short": 0}, Unwind: [2]int{64, 64}, Budget: [2]int{120, 1500},
 				Models: []string{"net/url.Parse=vpModelURLParse", "path.Join=vpModelPathJoin"},
 				What:   "ordered.Unmarshal into Pipeline (Pipeline/Steps/GroupStep.UnmarshalOrdered, unmarshalStep, stepFromMap, the reflective unmarshaler) on decoded documents whose step sequence mixes valid and invalid scalars, well-formed maps of every kind, ill-typed and unknown-type maps, ints, nulls and groups; top level bare list / mapping / steps null / steps absent: no panic; a usable result is complete, ordered, non-nil, falls back verbatim with one warning leaf per fallback, and marshals to JSON"},
-			{Pkg: ".", Name: "c13_steps", Quick: map[string]int{"entries": 1, "depth": 1}, Thorough: map[string]int{"entries": 2, "depth": 1}, Unwind: [2]int{64, 64}, Budget: [2]int{120, 1500},
+			{Pkg: ".", Name: "c13_steps", Quick: map[string]int{"entries": 1, "depth": 1, "short": 0}, Thorough: map[string]int{"entries": 2, "depth": 1, "short": 0}, Unwind: [2]int{64, 64}, Budget: [2]int{120, 1500},
 				Models: []string{"net/url.Parse=vpModelURLParse", "path.Join=vpModelPathJoin"},
 				What:   "same with groups holding up to two children of every kind (recursion into groups, failures absorbed by the enclosing step)"},
+			{Pkg: ".", Name: "c13_steps", ThoroughOnly: true, Quick: map[string]int{"entries": 3, "depth": 0, "short": 1}, Unwind: [2]int{64, 64}, Budget: [2]int{120, 3000},
+				Models: []string{"net/url.Parse=vpModelURLParse", "path.Join=vpModelPathJoin"},
+				What:   "thorough tier only: three entries per step sequence, with the symbolic scalar and type strings shortened to <= 1 byte"},
 			{Pkg: ".", Name: "c13_long", Quick: map[string]int{"max": 24}, Thorough: map[string]int{"max": 96}, Unwind: [2]int{256, 512}, Budget: [2]int{120, 1500},
 				Models: []string{"net/url.Parse=vpModelURLParse", "path.Join=vpModelPathJoin"},
 				What:   "long step lists (top level or inside a group) of identical unknown-kind, malformed-field or command entries at boundary sizes: every size c-1, c, c+1 for the integer constants 2 < c <= max that occur in the current SSA of steps.go, step_group.go, step.go, parser.go and pipeline.go, and max itself: one step per entry, expected kinds, one warning leaf per fallback, JSON marshalling succeeds"},
@@ -340,6 +350,9 @@ func registry() map[string]PropSpec {
 			{Pkg: "signature", Name: "c06_signsteps", Quick: map[string]int{"depth": 1, "width": 2, "lite": 1}, Thorough: map[string]int{"depth": 2, "width": 2, "lite": 1}, Unwind: [2]int{64, 64}, Budget: [2]int{120, 1500}, FixedMapOrder: true,
 				Models: []string{"net/url.Parse=vpModelURLParse", "path.Join=vpModelPathJoin"},
 				What:   "step-kind mixes with two steps per level inside nested groups (every position of an unknown step relative to groups and other steps); command steps kept minimal, one key kind"},
+			{Pkg: "signature", Name: "c06_resign", Quick: map[string]int{}, Unwind: [2]int{64, 64}, Budget: [2]int{120, 1500}, FixedMapOrder: true,
+				Models: []string{"net/url.Parse=vpModelURLParse", "path.Join=vpModelPathJoin"},
+				What:   "histories of two SignSteps calls on the same step objects (top level or in a group) with the same key: first any subset of {A, B} as pipeline env, then another subset, value and repository: the result is that of signing fresh steps (exact field list for the env given now, verifies, changed/removed variables and another repository refused)"},
 			{Pkg: "signature", Name: "c06_envnames", Quick: map[string]int{}, Unwind: [2]int{64, 64}, Budget: [2]int{120, 1500}, FixedMapOrder: true,
 				Models: []string{"net/url.Parse=vpModelURLParse", "path.Join=vpModelPathJoin"},
 				What:   "one command step and one pipeline variable whose name is 1-3 symbolic bytes over the characters that occur in the signing code's own constants (read from the current SSA of sign.go: the env:: prefix, separators) plus A, _, a; shadowed or not: SignSteps signs env::NAME exactly when unshadowed, the field list is sorted and distinct, the signature verifies, and a changed value is refused"},
